@@ -4,7 +4,7 @@
 From Coq Require Import Extraction ExtrOcamlBasic.
 From V.Lib Require Import Bytes Base64.
 From V.Lib Require Import NetAddr.
-From V.Model Require Import Signed Cookies CookieStore Jar Csrf Ticket Bypass Authz Headers Redirect SignOut Refresh StoreFaults Oidc Pkce Upstream Proxy.
+From V.Model Require Import Signed Cookies CookieStore Jar JarSession Csrf Ticket Bypass Authz Headers Redirect SignOut Refresh StoreFaults Oidc Pkce Upstream Proxy.
 Extraction Blacklist String List Nat Bytes Int Char Array Buffer Hashtbl Printf Sx Conv Adapters Driver.
 Set Extraction Optimize.
 Separate Extraction
@@ -15,7 +15,7 @@ Separate Extraction
   Cookies.make_cookie Cookies.cookie_string Cookies.select_domain
   CookieStore.store_save CookieStore.store_load CookieStore.store_clear CookieStore.split_cookie_name
   CookieStore.load_cookie
-  Jar.jar_apply Jar.jar_cookies
+  Jar.jar_apply Jar.jar_cookies JarSession.jar_run
   Csrf.callback_state Csrf.decode_state Csrf.encode_state Csrf.generate_cookie_name Csrf.own_cookie_name Csrf.start_state Csrf.load_csrf
   Ticket.decode_ticket Ticket.encode_ticket Ticket.ticket_from_request Ticket.manager_load Ticket.manager_clear Ticket.manager_save
   Bypass.parse_route Bypass.is_allowed_route Bypass.is_allowed_request Bypass.build_set Bypass.set_has Bypass.canonical Bypass.is_trusted_ip Bypass.request_path
